@@ -123,23 +123,30 @@ func (x *searcher) lineChunkings(r *vlib.Run, maxLen int) {
 func schedMain(r *vlib.Run, x *searcher) {
 	controlled = true
 	type scen struct {
-		name string
-		v    Vars
-		pre  []buildOpts // builds performed (default schedule) before the explored one
-		o    buildOpts
+		name  string
+		v     Vars
+		pre   []buildOpts // builds performed (default schedule) before the explored one
+		o     buildOpts
+		more  int               // extra preemptions for this scenario
+		files map[string]string // a custom (smaller) project instead of the shape
 	}
 	base := initialVars()
 	base.Chatty = true
 	withv := func(f func(v *Vars)) Vars { v := base; f(&v); return v }
 	scens := []scen{
-		{"first build, two parallel branches", base, nil, buildOpts{Target: tTop}},
-		{"rebuild, everything up to date", base, []buildOpts{{Target: tTop}}, buildOpts{Target: tTop}},
-		{"always", base, []buildOpts{{Target: tTop}}, buildOpts{Target: tTop, Always: true}},
-		{"failing leaf", withv(func(v *Vars) { v.Fail[2] = true }), nil, buildOpts{Target: tTop}},
-		{"failing gen", withv(func(v *Vars) { v.Fail[0] = true }), nil, buildOpts{Target: tTop}},
-		{"missing dependency", withv(func(v *Vars) { v.Missing = true }), nil, buildOpts{Target: tTop}},
-		{"dependency cycle", withv(func(v *Vars) { v.Cycle = true }), nil, buildOpts{Target: tTop}},
-		{"dry run", base, nil, buildOpts{Target: tTop, Dry: true}},
+		{"first build, two parallel branches", base, nil, buildOpts{Target: tTop}, 0, nil},
+		{"shared dependency requested by two parallel branches (4-target diamond without sources)", Vars{}, nil, buildOpts{Target: tTop}, 1, map[string]string{
+			"dawn.toml":      "name = \"p\"\n",
+			"BUILD.dawn":     "def _gen(t):\n    step(\"gen\")\ntarget(name=\"gen\", function=_gen)\ndef _mid(t):\n    step(\"mid\")\ntarget(name=\"mid\", function=_mid, deps=[\":gen\"])\ndef _top(t):\n    step(\"top\")\ntarget(name=\"top\", function=_top, deps=[\":mid\", \"//pkg:leaf\"])\n",
+			"pkg/BUILD.dawn": "def _leaf(t):\n    step(\"leaf\")\ntarget(name=\"leaf\", function=_leaf, deps=[\"//:gen\"])\n",
+		}},
+		{"rebuild, everything up to date", base, []buildOpts{{Target: tTop}}, buildOpts{Target: tTop}, 0, nil},
+		{"always", base, []buildOpts{{Target: tTop}}, buildOpts{Target: tTop, Always: true}, 0, nil},
+		{"failing leaf", withv(func(v *Vars) { v.Fail[2] = true }), nil, buildOpts{Target: tTop}, 0, nil},
+		{"failing gen", withv(func(v *Vars) { v.Fail[0] = true }), nil, buildOpts{Target: tTop}, 0, nil},
+		{"missing dependency", withv(func(v *Vars) { v.Missing = true }), nil, buildOpts{Target: tTop}, 0, nil},
+		{"dependency cycle", withv(func(v *Vars) { v.Cycle = true }), nil, buildOpts{Target: tTop}, 0, nil},
+		{"dry run", base, nil, buildOpts{Target: tTop, Dry: true}, 0, nil},
 	}
 	bound := 0 // quick: every non-preemptive schedule
 	if r.Thorough() {
@@ -156,11 +163,15 @@ func schedMain(r *vlib.Run, x *searcher) {
 			s.Art = artOf(res.After)
 		}
 		orders := map[string]bool{}
-		ex := &vsched.Explorer{Bound: bound, Prune: true, MaxExecs: 200_000}
+		ex := &vsched.Explorer{Bound: bound + sc.more, Prune: true, MaxExecs: 200_000}
 		ex.Run = func(prefix []int) *vsched.Result {
 			var res *buildResult
 			x.withRoot(func(root string) {
-				writeTree(root, s.files())
+				if sc.files != nil {
+					writeTree(root, sc.files)
+				} else {
+					writeTree(root, s.files())
+				}
 				res = buildCtl(root, s.V, sc.o, ctlOpts{prefix: prefix, muted: true})
 			})
 			x.nBuilds.Add(1)
@@ -199,7 +210,7 @@ func schedMain(r *vlib.Run, x *searcher) {
 	r.Finish(vlib.Coverage{
 		Evaluations:        r.Get("executions"),
 		DistinctNontrivial: r.Get("scenarios_with_contention"),
-		Rule:               "8 build scenarios (parallel branches, up-to-date, always, failing bodies, missing dependency, dependency cycle, dry run) of the real Project.Run under the controlled scheduler, every interleaving within the preemption bound; non-trivial = scenario with more than one distinct event order",
+		Rule:               "9 build scenarios (parallel branches, up-to-date, always, failing bodies, missing dependency, dependency cycle, dry run) of the real Project.Run under the controlled scheduler, every interleaving within the preemption bound; non-trivial = scenario with more than one distinct event order",
 		States:             r.Get("distinct_event_orders"),
 		Transitions:        r.Get("executions"),
 		TracesValidated:    r.Get("executions"),
@@ -212,6 +223,9 @@ func schedMain(r *vlib.Run, x *searcher) {
 // checkChatty: the lines printed by chatty bodies arrive exactly once, in order, between
 // Evaluating and completion of their own label, under every interleaving.
 func (x *searcher) checkChatty(s, n *State, res *buildResult) {
+	if !s.V.Chatty {
+		return
+	}
 	want := map[string][]string{tTop: {"top line 1", "top line 2", "partial"}, tLeaf: {"leaf says", "hello world"}}
 	for t, w := range want {
 		if !res.Executed[t] {
